@@ -23,15 +23,40 @@ Unary(S)     == {TNot(a) : a \in S} \cup {TLoop(a, r[1], r[2]) : a \in S, r \in 
 Binary(S, T) == {TCat(a, b) : a \in S, b \in T} \cup {TAlt(<<a, b>>) : a \in S, b \in T}
                 \cup {TAnd(<<a, b>>) : a \in S, b \in T}
 D1 == D0 \cup Unary(D0) \cup Binary(D0, D0)
-D2 == Unary(D1) \cup (IF Full THEN Binary(D1, D1) ELSE Binary(D1, D0) \cup Binary(D0, D1))
-          \cup {TAlt(<<a, b, c>>) : a \in D0, b \in D0, c \in D0} \cup {TAnd(<<a, TNot(b), c>>) : a \in D0, b \in D0, c \in D0}
-
-All == SetToSeq(D1 \cup D2)
-NT  == Len(All)
+(* Depth-2 terms are decoded from an index (no large set is materialised):                  *)
+(*   unary operators over D1, binary operators over D1 x D1 (Full) or D1 x D0 and D0 x D1,   *)
+(*   and two ternary families over D0.                                                       *)
+S0 == SetToSeq(D0)   N0 == Len(S0)
+S1 == SetToSeq(D1)   N1 == Len(S1)
+LR == SetToSeq(LoopRanges)
+NUn == 1 + Len(LR) + (MaxChar + 1)                 \* not, loops, quotients
+UnaryAt(a, k) == IF k = 0 THEN TNot(a)
+                 ELSE IF k <= Len(LR) THEN TLoop(a, LR[k][1], LR[k][2])
+                 ELSE TQuot(k - Len(LR) - 1, a)
+BinAt(op, a, b) == IF op = 0 THEN TCat(a, b) ELSE IF op = 1 THEN TAlt(<<a, b>>) ELSE TAnd(<<a, b>>)
+NA == N1                                            \* depth <= 1
+NB == N1 * NUn                                      \* unary over D1
+NC == IF Full THEN 3 * N1 * N1 ELSE 3 * 2 * N1 * N0 \* binary
+ND == 2 * N0 * N0 * N0                              \* ternary over D0
+NT == NA + NB + NC + ND
+TermAt(n) ==
+  IF n < NA THEN S1[n + 1]
+  ELSE IF n < NA + NB THEN LET m == n - NA IN UnaryAt(S1[(m \div NUn) + 1], m % NUn)
+  ELSE IF n < NA + NB + NC THEN
+       LET m == n - NA - NB IN
+       IF Full THEN LET op == m \div (N1 * N1) r == m % (N1 * N1) IN BinAt(op, S1[(r \div N1) + 1], S1[(r % N1) + 1])
+       ELSE LET op == m \div (2 * N1 * N0) r == m % (2 * N1 * N0)
+                side == r \div (N1 * N0) q == r % (N1 * N0)
+                x == S1[(q \div N0) + 1] y == S0[(q % N0) + 1]
+            IN IF side = 0 THEN BinAt(op, x, y) ELSE BinAt(op, y, x)
+  ELSE LET m == n - NA - NB - NC
+           fam == m \div (N0 * N0 * N0) r == m % (N0 * N0 * N0)
+           a == S0[(r \div (N0 * N0)) + 1] b == S0[((r \div N0) % N0) + 1] c == S0[(r % N0) + 1]
+       IN IF fam = 0 THEN TAlt(<<a, b, c>>) ELSE TAnd(<<a, TNot(b), c>>)
 
 VARIABLE l
 K == 64
-Init == l \in 1..K
+Init == l \in 0..K - 1
 Agree(t) == \A w \in Words : Matches(t, w) = Accepts(t, w)
 (* exact emptiness (closure over region representatives) vs search over short words: *)
 (* a word found => NonEmpty; NonEmpty with few residual states => a short word exists *)
@@ -47,7 +72,7 @@ ReplaceOk(t) ==
          m     == LeftmostFrom(t, s, 0, 0)
      IN IF cands = {} THEN m = <<-1, -1>> ELSE m = best
 Judge(t) == IF Agree(t) /\ EmptinessOk(t) /\ ReplaceOk(t) THEN TRUE ELSE PrintT(<<"SPECBUG", t>>) /\ FALSE
-Next == l <= NT /\ Judge(All[l]) /\ l' = l + K
+Next == l < NT /\ Judge(TermAt(l)) /\ l' = l + K
 
 (* SMT-LIB's literal definitions of the derived constructors vs Core's loop-range shortcuts *)
 SameOnWords(a, b) == \A w \in Words : Matches(a, w) = Matches(b, w)
